@@ -62,7 +62,7 @@ BASES = "ACGT"
 
 
 def plan(tier, seed):
-    k = 2 if tier == "quick" else 12
+    k = 2 if tier == "quick" else 50
     specs = [{"name": "s%02d" % i, "shard": i, "fn_cases": 400 * k, "prog_cases": 40 * k, "timeout": 6000} for i in range(16)]
     specs += [{"name": "bam%d" % i, "kind": "bam", "shard": 100 + i, "datasets": 2 * k, "timeout": 6000} for i in range(4)]
     return specs
